@@ -34,6 +34,11 @@ func c03Scenarios(cfg runCfg) []Scenario {
 		out = append(out, Scenario{Family: "prng", Seed: mix(cfg.seed, 3, uint64(i)), N: 100})
 	}
 	out = append(out, Scenario{Family: "make-scopes", Seed: mix(cfg.seed, 3, 77, uint64(cfg.shard))})
+	for i := 0; i < cfg.n(48, 10); i++ {
+		if cfg.mine(i) {
+			out = append(out, Scenario{Family: "long", Seed: mix(cfg.seed, 3, 79, uint64(i)), N: 12, K: i})
+		}
+	}
 	for i := 0; i < cfg.n(16, 10); i++ {
 		if cfg.mine(i) {
 			out = append(out, Scenario{Family: "unsat", Seed: mix(cfg.seed, 3, 78, uint64(i)), N: 100})
@@ -194,6 +199,10 @@ func c03Run(t *testing.T, sc Scenario, res *Result) {
 		c03RunUnsat(t, sc, res)
 		return
 	}
+	if sc.Family == "long" {
+		c03RunLong(t, sc, res)
+		return
+	}
 	if sc.Family == "make-scopes" {
 		// same-named types from different scopes, used one after the other in one process
 		for i, gx := range []*GX{mkLocalA(), mkLocalB(), mkLocalA()} {
@@ -332,4 +341,175 @@ func safeExampleVal(gx *GX, seed int) (v any, ok bool) {
 		}
 	}()
 	return gx.Gen.Example(seed), true
+}
+
+type longGen struct {
+	desc  string
+	draw  func(rt *rapid.T) any
+	check func(v any) string
+}
+
+// c03LongGens: generators of LONG values (67 ... several thousand bytes / elements), typed (not through AsAny), so that
+// whatever the library does with a value on its way out (draw log, labels, copies) sees the real thing.
+func c03LongGens() []longGen {
+	bytesIn := func(desc string, lo, hi byte, mn, mx int) func(v any) string {
+		return func(v any) string {
+			b, ok := v.([]byte)
+			if !ok {
+				return fmt.Sprintf("%s returned %T", desc, v)
+			}
+			if len(b) < mn || len(b) > mx {
+				return fmt.Sprintf("%s returned %d bytes", desc, len(b))
+			}
+			for i, c := range b {
+				if c < lo || c > hi {
+					return fmt.Sprintf("%s returned byte %#x at index %d of %d (allowed %#x..%#x): %q", desc, c, i, len(b), lo, hi, clip(string(b), 200))
+				}
+			}
+			return ""
+		}
+	}
+	reB := regexp.MustCompile(`^[a-c]{70,300}$`)
+	reS := regexp.MustCompile(`^(ab|cd){40,90}x$`)
+	return []longGen{
+		{"SliceOfN(ByteRange('a','f'), 67, 200)", func(rt *rapid.T) any { return rapid.SliceOfN(rapid.ByteRange('a', 'f'), 67, 200).Draw(rt, "b") }, bytesIn("SliceOfN(ByteRange('a','f'), 67, 200)", 'a', 'f', 67, 200)},
+		{"SliceOfN(ByteRange(0,3), 128, 5000)", func(rt *rapid.T) any { return rapid.SliceOfN(rapid.ByteRange(0, 3), 128, 5000).Draw(rt, "b") }, bytesIn("SliceOfN(ByteRange(0,3), 128, 5000)", 0, 3, 128, 5000)},
+		{"SliceOfN(Uint8Range(200,255), 64, 70)", func(rt *rapid.T) any { return rapid.SliceOfN(rapid.Uint8Range(200, 255), 64, 70).Draw(rt, "b") }, bytesIn("SliceOfN(Uint8Range(200,255), 64, 70)", 200, 255, 64, 70)},
+		{"SliceOfBytesMatching(`[a-c]{70,300}`)", func(rt *rapid.T) any { return rapid.SliceOfBytesMatching(`[a-c]{70,300}`).Draw(rt, "b") }, func(v any) string {
+			b, ok := v.([]byte)
+			if !ok || !reB.Match(b) {
+				return fmt.Sprintf("SliceOfBytesMatching(`[a-c]{70,300}`) returned %q", clip(fmt.Sprint(v), 300))
+			}
+			return ""
+		}},
+		{"StringMatching(`(ab|cd){40,90}x`)", func(rt *rapid.T) any { return rapid.StringMatching(`(ab|cd){40,90}x`).Draw(rt, "s") }, func(v any) string {
+			s, ok := v.(string)
+			if !ok || !reS.MatchString(s) {
+				return fmt.Sprintf("StringMatching(`(ab|cd){40,90}x`) returned %q", clip(fmt.Sprint(v), 300))
+			}
+			return ""
+		}},
+		{"StringOfN(RuneFrom([]rune(\"xyz\")), 100, 400, -1)", func(rt *rapid.T) any {
+			return rapid.StringOfN(rapid.RuneFrom([]rune("xyz")), 100, 400, -1).Draw(rt, "s")
+		}, func(v any) string {
+			s, ok := v.(string)
+			if !ok || len(s) < 100 || len(s) > 400 || strings.Trim(s, "xyz") != "" {
+				return fmt.Sprintf("StringOfN(RuneFrom(xyz),100,400,-1) returned %q", clip(fmt.Sprint(v), 300))
+			}
+			return ""
+		}},
+		{"SliceOfN(Int16Range(-5,5), 80, 90)", func(rt *rapid.T) any { return rapid.SliceOfN(rapid.Int16Range(-5, 5), 80, 90).Draw(rt, "v") }, func(v any) string {
+			s, ok := v.([]int16)
+			if !ok || len(s) < 80 || len(s) > 90 {
+				return fmt.Sprintf("SliceOfN(Int16Range(-5,5),80,90) returned %T of %d", v, len(s))
+			}
+			for _, e := range s {
+				if e < -5 || e > 5 {
+					return fmt.Sprintf("SliceOfN(Int16Range(-5,5),80,90) returned element %d", e)
+				}
+			}
+			return ""
+		}},
+		{"MapOfN(IntRange(0,999), ByteRange(1,2), 70, 90)", func(rt *rapid.T) any {
+			return rapid.MapOfN(rapid.IntRange(0, 999), rapid.ByteRange(1, 2), 70, 90).Draw(rt, "m")
+		}, func(v any) string {
+			m, ok := v.(map[int]byte)
+			if !ok || len(m) < 70 || len(m) > 90 {
+				return fmt.Sprintf("MapOfN(...,70,90) returned %T of %d", v, len(m))
+			}
+			for k, e := range m {
+				if k < 0 || k > 999 || e < 1 || e > 2 {
+					return fmt.Sprintf("MapOfN(...,70,90) returned entry %d:%d", k, e)
+				}
+			}
+			return ""
+		}},
+	}
+}
+
+// c03RunLong drives the long-value generators with draw logging ON (MakeFuzz logs every draw to the TB; Check under
+// -rapid.v; the final replay of a failing Check) and OFF, and checks every value when it is returned and again when the
+// test case ends.
+func c03RunLong(t *testing.T, sc Scenario, res *Result) {
+	gens := c03LongGens()
+	lg := gens[sc.K%len(gens)]
+	r := newRng(sc.Seed, 0x10c3)
+	var complaint string
+	failAt := -1
+	calls := 0
+	prop := func(rt *rapid.T) {
+		calls++
+		var held []any
+		defer func() {
+			for _, v := range held {
+				if c := lg.check(v); c != "" && complaint == "" {
+					complaint = "a value returned earlier in the test case changed afterwards: " + c
+				}
+			}
+		}()
+		for i := 0; i < 2; i++ {
+			v := lg.draw(rt)
+			held = append(held, v)
+			res.inc("values_checked")
+			res.inc("long_values_checked")
+			if c := lg.check(v); c != "" && complaint == "" {
+				complaint = c
+			}
+		}
+		if failAt >= 0 && calls > failAt {
+			rt.Fatalf("the property fails so that the final replay (logging on) is exercised")
+		}
+	}
+	report := func(driver string, extra map[string]any) {
+		if complaint != "" {
+			extra["expr"], extra["driver"] = lg.desc, driver
+			res.violate(sc, "c03/contract/"+lg.desc, "out-of-contract value: "+complaint, extra)
+			complaint = ""
+		}
+	}
+	for i := 0; i < sc.N; i++ {
+		seed := mix(sc.Seed, uint64(i))%1000003 + 1
+		// (1) MakeFuzz on the words of a PRNG recording (every draw is logged to the TB)
+		rec, _ := rapid.VerifRecord(seed, prop)
+		report("VerifRecord (PRNG, quiet)", map[string]any{"seed": seed})
+		in := wordsToBytes(rec.Data)
+		var st *testing.T
+		fz := rapid.MakeFuzz(prop)
+		t.Run("f", func(s *testing.T) { st = s; fz(s, in) })
+		res.inc("fuzz_cases")
+		res.inc("long_fuzz_cases")
+		if st.Failed() {
+			res.violate(sc, "c03/fuzz-fail/"+lg.desc, "fuzz sub-test failed on the words of a recording although the property never fails", map[string]any{"expr": lg.desc, "seed": seed})
+		} else if st.Skipped() {
+			res.inc("fuzz_skipped")
+		} else {
+			res.inc("fuzz_passed")
+		}
+		report("MakeFuzz (draws logged)", map[string]any{"seed": seed, "input_len": len(in)})
+	}
+	// (2) Check, verbose and quiet
+	for _, v := range []string{"true", "false"} {
+		setFlags(map[string]string{"rapid.seed": fmt.Sprint(sc.Seed%1000003 + 1), "rapid.checks": "10", "rapid.nofailfile": "true", "rapid.v": v})
+		tb := newTB("C03long")
+		runCheck(tb, prop)
+		res.count("prng_cases", 10)
+		res.inc("long_checks:v=" + v)
+		if tb.escaped != nil || len(tb.errors()) > 0 {
+			res.violate(sc, "c03/check-fail/"+lg.desc, fmt.Sprintf("Check failed although the property never fails: escaped %v, errors %v", tb.escaped, clipList(tb.errors(), 2)), map[string]any{"expr": lg.desc})
+		}
+		report("Check -rapid.v="+v, map[string]any{})
+	}
+	// (3) a failing Check: reproduction, (cut) minimisation, final replay with the draws logged
+	calls, failAt = 0, r.between(0, 5)
+	setFlags(map[string]string{"rapid.seed": fmt.Sprint(sc.Seed%1000003 + 2), "rapid.checks": "10", "rapid.nofailfile": "true", "rapid.shrinktime": pick(r, []string{"0s", "30ms"})})
+	tb := newTB("C03long")
+	runCheck(tb, prop)
+	res.count("prng_cases", 10)
+	res.inc("long_failing_checks")
+	if tb.escaped != nil {
+		res.violate(sc, "c03/escape/"+lg.desc, fmt.Sprintf("panic escaped Check: %v", tb.escaped), map[string]any{"expr": lg.desc})
+	}
+	report("failing Check (final replay logs the draws)", map[string]any{})
+	failAt = -1
+	res.nontrivial(fmt.Sprintf("long/%s/%x", lg.desc, sc.Seed))
 }
